@@ -1,4 +1,5 @@
 import Ccp.Proofs.IPVal
+import Ccp.Proofs.IPValX
 /-!
 # C13 — address objects obey ordering, equality, hashing and arithmetic laws
 
@@ -216,5 +217,114 @@ example : setOffset v4 (ofIpLen v4 0x0a000005 24) 256 = .error .addressValueErro
 example : setOffset v4 (ofIpLen v4 0x0a000005 24) (-1) = .error .addressValueError := by decide
 example : getOffset v4 (ofIpLen v4 0x0a0000ff 24) = .error .requirementFailure := by decide
 example : getOffset v4 (ofIpLen v4 0x0a0000fe 24) = .ok 254 := by decide
+
+/-! ## The other operands, setter names and argument types
+
+`ltX / gtX / eqX / neX self val` are the operators for any two operands (`Ccp.Model.IPValX`): a non-empty
+object of either family, the empty object `IPv4Obj()` / `IPv6Obj()`, or a `str`; the answer is a truth
+value or the exception class that escapes.  `setLenBy / setLenStr / setOffsetStr` are the setters under
+their four names and with `str` arguments. -/
+
+open Ccp.IPValX in
+/-- **on two non-empty objects the general operators are the ones of the theorems above** — for `<`, `>`,
+`==` also across the two families (the comparison is numeric on (network, length, address)); `!=` is the
+negation of `==` within a family.  (`IPv4Obj != IPv6Obj` is `True` whatever `==` says: `__ne__` answers
+`True` for every operand that is not an `IPv4Obj`.) -/
+theorem opsX_on_objects (a b : Arg) (x y : Obj) (ha : objOf a = some x) (hb : objOf b = some y) :
+    ltX a b = some (.ok (lt x y)) ∧ gtX a b = some (.ok (gt x y)) ∧ eqX a b = some (.ok (eq x y)) ∧
+    (neX (.obj4 x) (.obj4 y) = some (.ok (ne x y)) ∧ neX (.obj6 x) (.obj6 y) = some (.ok (ne x y)) ∧
+     neX (.obj6 x) (.obj4 y) = some (.ok (ne x y)) ∧ neX (.obj4 x) (.obj6 y) = some (.ok true)) := by
+  cases a <;> cases b <;> simp [objOf] at ha hb <;> subst ha <;> subst hb <;>
+    simp [ltX, gtX, eqX, neX, objOf, eq4X, eq6X, notE, ne]
+
+open Ccp.IPValX in
+/-- **ordering an empty object or a `str` raises**: `<` and `>` raise `ValueError` as soon as one operand is
+an empty object or no address object at all -/
+theorem ordering_rejects (a b : Arg) (ha : a ≠ .other) (h : objOf a = none ∨ objOf b = none) :
+    ltX a b = some (.error .valueError) ∧ gtX a b = some (.error .valueError) := by
+  cases a <;> cases b <;> simp_all [ltX, gtX, objOf]
+
+open Ccp.IPValX in
+/-- **equality with empty objects, per family**: two empty objects are equal, an empty and a non-empty one
+are not (in either order), `!=` is the negation, nothing raises -/
+theorem eqX_empty (x : Obj) :
+    (eqX .empty4 .empty4 = some (.ok true) ∧ eqX .empty4 (.obj4 x) = some (.ok false) ∧
+      eqX (.obj4 x) .empty4 = some (.ok false)) ∧
+    (neX .empty4 .empty4 = some (.ok false) ∧ neX .empty4 (.obj4 x) = some (.ok true) ∧
+      neX (.obj4 x) .empty4 = some (.ok true)) ∧
+    (eqX .empty6 .empty6 = some (.ok true) ∧ eqX .empty6 (.obj6 x) = some (.ok false) ∧
+      eqX (.obj6 x) .empty6 = some (.ok false)) ∧
+    (neX .empty6 .empty6 = some (.ok false) ∧ neX .empty6 (.obj6 x) = some (.ok true) ∧
+      neX (.obj6 x) .empty6 = some (.ok true)) := by
+  simp [eqX, neX, eq4X, eq6X, notE]
+
+open Ccp.IPValX in
+/-- **a `str` is never equal to a non-empty object** (`==` is `False`, `!=` is `True`, no exception) -/
+theorem eqX_str (x : Obj) :
+    eqX (.obj4 x) .other = some (.ok false) ∧ neX (.obj4 x) .other = some (.ok true) ∧
+    eqX (.obj6 x) .other = some (.ok false) ∧ neX (.obj6 x) .other = some (.ok true) := by
+  simp [eqX, neX, eq4X, eq6X, notE]
+
+open Ccp.IPValX in
+/-- **`hash()`, `int()`, `__index__()` and the four names of the prefix length** on a non-empty object:
+`hash` returns, `int` is the address, `prefixlen = masklen = masklength = prefixlength` -/
+theorem unary_on_objects (a : Arg) (x : Obj) (ha : objOf a = some x) (name : LenName) :
+    hashX a = some (.ok ()) ∧ intX a = some (.ok x.ip) ∧ getLenX name a = some (.ok (some x.len)) := by
+  cases a <;> simp [objOf] at ha <;> subst ha <;> simp [hashX, intX, getLenX]
+
+open Ccp.IPValX in
+/-- **the other names of the setter**: `masklen`, `masklength` and (IPv4) `prefixlength` assign exactly as
+`prefixlen` does — so `set_len_keeps_ip` holds for them: the address is kept, the length set, the invariant
+re-established, anything outside `0 … w` raises `NetmaskValueError`.  `IPv6Obj.prefixlength` has no setter:
+`AttributeError`, nothing assigned. -/
+theorem alias_setters (fam : Nat) (name : LenName) (x : Obj) (arg : Int)
+    (h : ¬ (name = .prefixlength ∧ fam = 6)) :
+    setLenBy fam name x arg = liftE (setLen (famOfNat fam) x arg) ∧
+    setLenBy 6 .prefixlength x arg = .error .attributeError := by
+  simp [setLenBy, h]
+
+open Ccp.IPValX in
+/-- **`str` arguments**: assigning the decimal text of `n` to a length setter is assigning `n`; assigning
+the decimal text of an integer `k` (negative ones included) to `network_offset` is assigning `k` — so
+`set_len_keeps_ip` / `set_offset_sets_ip` cover these spellings. -/
+theorem str_arguments (fam : Nat) (name : LenName) (x : Obj) (n : Nat) (k : Int) :
+    setLenStr fam name x (Py.toDec n) = setLenBy fam name x (n : Int) ∧
+    setOffsetStr fam x (Py.intToDec k) = liftE (setOffset (famOfNat fam) x k) := by
+  constructor
+  · unfold setLenStr setLenBy
+    split
+    · rfl
+    · simp [IPText.all_isDigit_toDec, IPText.ofDigits_toDec]
+  · simp [setOffsetStr, pyInt_intToDec]
+
+open Ccp.IPValX in
+/-- **what the setters and operators reject by type**: a text that is not all digits is no prefix length
+(`NetmaskValueError`), a text that is no integer literal is no offset (`ValueError`), a `float` offset
+raises `NotImplementedError`, a non-`int` operand of `+` / `-` raises `ValueError` -/
+theorem type_rejections (fam : Nat) (name : LenName) (x : Obj) (t : Py.Str)
+    (hn : ¬ (name = .prefixlength ∧ fam = 6)) :
+    (t.all Py.isDigit = false → setLenStr fam name x t = .error (.base .netmaskValueError)) ∧
+    (Py.pyInt t = none → setOffsetStr fam x t = .error .valueError) ∧
+    setOffsetOther = .error (.base .notImplemented) ∧ arithNonInt = .error .valueError := by
+  refine ⟨fun h => ?_, fun h => ?_, rfl, rfl⟩
+  · simp [setLenStr, hn, h]
+  · simp [setOffsetStr, h]
+
+-- non-vacuity: across families `==` is numeric and `!=` from the IPv4 side is always true; ordering an empty object raises;
+-- hash(IPv6Obj()) raises while hash(IPv4Obj()) returns; a leading zero, a sign, a blank
+open Ccp.IPValX in
+example : eqX (.obj4 (ofIpLen v4 1 8)) (.obj6 (ofIpLen v6 1 8)) = some (.ok true) ∧
+    neX (.obj4 (ofIpLen v4 1 8)) (.obj6 (ofIpLen v6 1 8)) = some (.ok true) ∧
+    ltX .empty4 (.obj4 (ofIpLen v4 1 8)) = some (.error .valueError) ∧
+    eqX (.obj6 (ofIpLen v6 1 8)) .empty4 = some (.error .valueError) ∧
+    eqX .empty4 (.obj6 (ofIpLen v6 1 8)) = some (.error .attributeError) ∧
+    hashX .empty6 = some (.error .attributeError) ∧ hashX .empty4 = some (.ok ()) := by decide
+open Ccp.IPValX in
+example : setLenStr 4 .masklen (ofIpLen v4 0x0a000005 24) "016".toList = .ok (ofIpLen v4 0x0a000005 16) ∧
+    setLenStr 4 .masklen (ofIpLen v4 0x0a000005 24) "+16".toList = .error (.base .netmaskValueError) ∧
+    setLenStr 6 .prefixlength (ofIpLen v6 5 64) "16".toList = .error .attributeError ∧
+    setOffsetStr 4 (ofIpLen v4 0x0a000005 24) " 7 ".toList = .ok (ofIpLen v4 0x0a000007 24) ∧
+    setOffsetStr 4 (ofIpLen v4 0x0a000005 24) "-1".toList = .error (.base .addressValueError) ∧
+    setOffsetStr 4 (ofIpLen v4 0x0a000005 24) "x".toList = .error .valueError := by decide
 
 end Ccp.C13
